@@ -10,7 +10,7 @@ META = {
     "level": "translation_validation",
     "engine": "E1 artifact-level SMT: circuit parsed from a generated bench text proved equal, net by net, to the denotation of the AST the text was rendered from (DFF Q free, D pin = D net), for all valuations; write->read proved equal at every output",
     "hashseeds": {"quick": [0, 1], "thorough": [0, 1, 2, 3, 4, 5, 6, 7]},
-    "shards": {"quick": 8, "thorough": 2},
+    "shards": {"quick": 8, "thorough": 4},
     "bounds": {
         "quick": "programs rendered from F-unit(K<=4), F-shape, 30 random DAGs, each also with 1..3 DFFs (D from gates, inputs, other DFFs' Q incl. chains), repeated operands; 6 layouts (line order: writer order / outputs first / gates first / shuffled; upper/lower case keywords and gate names; BUF vs BUFF; blanks around `=`, `,` and inside parentheses, tabs, blank and comment lines); writer round trip on blackbox-free members with and without 0/1 constants",
         "thorough": "300 random DAGs, 8 hash seeds",
